@@ -166,6 +166,29 @@ def trigMixinAndUnpacked (r : Run) : Bool :=
   let mixins := (okOuts r.ops).foldl (fun acc o => setUnion acc o.st.mixins) fragMixins
   unpacked.any mixins.contains
 
+/-- C01-F10: `__typename` selected with `@skip` / `@include`: `parse_operation_field` returns the `Literal[...]`
+    annotation of the typename and ignores the directives, so the field stays required although the server may omit it -/
+def trigCondTypename (inp : Input) : Bool :=
+  anyInDoc inp fun s => match s with
+    | .field _ n dirs _ _ => n == typenameField && hasCond dirs
+    | _ => false
+
+/-- names every result module binds itself: the `_imports` of result_types.py (pydantic / typing / base model) and
+    the builtins `SIMPLE_TYPE_MAP` annotations refer to -/
+def moduleOwnNames : List String :=
+  ["BaseModel", "Field", "Optional", "List", "Any", "Literal", "Union", "Annotated", "BeforeValidator", "Upload",
+   "str", "int", "float", "bool"]
+
+/-- C01-F11: a name is bound twice in a result module.  Either a generated class is called like something the module
+    imports (`query Base { model {..} }` emits `class BaseModel(BaseModel)`; a class named like a schema enum or a
+    configured scalar type), or a schema enum is called like one of the module's own names (`enum int {..}`: every `Int`
+    field is then annotated with the enum) -/
+def trigShadowedName (inp : Input) (r : Run) : Bool :=
+  let classes := (okOuts r.ops ++ okOuts (r.frags.map (·.2))).flatMap (·.classes)
+  let enums := (inp.env.schema.types.filter (·.kind == .enum)).map (·.name)
+  let imported := moduleOwnNames ++ enums ++ inp.env.scalars.map (·.typeName)
+  classes.any (fun c => imported.contains c.name) || enums.any moduleOwnNames.contains
+
 def triggers (inp : Input) : List String :=
   let r := run inp
   (if trigInlineNoType inp then ["inlineNoType"] else [])
@@ -175,6 +198,8 @@ def triggers (inp : Input) : List String :=
   ++ (if trigDroppedSelection inp.env.schema r then ["droppedSelection"] else [])
   ++ (if trigMixinAbstractField inp r then ["mixinAbstractField"] else [])
   ++ (if trigMixinAndUnpacked r then ["mixinAndUnpacked"] else [])
+  ++ (if trigCondTypename inp then ["condTypename"] else [])
+  ++ (if trigShadowedName inp r then ["shadowedName"] else [])
 
 /-- the region where the partial theorems of C01 / C05 / C08 are claimed -/
 def Supported_01 (inp : Input) : Prop := triggers inp = []
